@@ -12,14 +12,14 @@ def sh(cmd, cwd=None, timeout=3000):
 
 def adopt(wt, pid, name, needs):
     src = os.path.join(wt, "_mutation")
-    rc, patch = sh("git diff -- pbhhg_py pbhhg_js", cwd=wt)
+    patch = subprocess.run("git diff --binary -- pbhhg_py pbhhg_js", cwd=wt, shell=True, capture_output=True).stdout      # bytes: module.py has CRLF line ends
     assert patch.strip(), "no change in the worktree"
     scratch = f"/tmp/mutv_{name}"
     sh(f"git -C {REPO} worktree remove --force {scratch}"); sh(f"git -C {REPO} worktree add -q --detach {scratch} HEAD")
     try:
         os.makedirs(os.path.join(scratch, "_mutation"), exist_ok=True)
         shutil.copy(os.path.join(src, "demo.py"), os.path.join(scratch, "_mutation", "demo.py"))
-        open(os.path.join(scratch, "_mutation", "patch.diff"), "w").write(patch)
+        open(os.path.join(scratch, "_mutation", "patch.diff"), "wb").write(patch)
         d0, o0 = sh(f"{PY} _mutation/demo.py", cwd=scratch, timeout=600)
         a, ao = sh("git apply _mutation/patch.diff", cwd=scratch)
         assert a == 0, "patch does not apply: " + ao
@@ -32,7 +32,7 @@ def adopt(wt, pid, name, needs):
     print(f"demo without change: exit {d0}; with change: exit {d1}; suite with change: {tail}  => {'CONFIRMED' if ok else 'REJECTED'}")
     if not ok: print(o0[-400:], o1[-400:]); return 1
     dst = os.path.join(SEEDED, name); os.makedirs(dst, exist_ok=True)
-    open(os.path.join(dst, "patch.diff"), "w").write(patch); shutil.copy(os.path.join(src, "demo.py"), os.path.join(dst, "demo.py"))
+    open(os.path.join(dst, "patch.diff"), "wb").write(patch); shutil.copy(os.path.join(src, "demo.py"), os.path.join(dst, "demo.py"))
     if os.path.exists(os.path.join(src, "notes.md")): shutil.copy(os.path.join(src, "notes.md"), os.path.join(dst, "notes.md"))
     json.dump(dict(name=name, breaks_property=pid, needs_to_manifest=needs, author="independent sub-agent given only the property text and a scratch worktree",
                    confirmed=dict(demo_exit_without_change=d0, demo_exit_with_change=d1, test_suite_with_change=tail, demo_output_with_change=o1[-600:]),
